@@ -106,9 +106,15 @@ var c08Keys = []c08Key{
 var c08Special = map[string][]c08Val{
 	"statuscode": {{"[]", "empty-list"}, {"[{}]", "empty-obj"}, {"[{cycle:0,rsq:0,code:404}]", "cycle-zero"}, {"[{cycle:30,rsq:-1,code:404}]", "rsq-negative"},
 		{"[{cycle:30,rsq:0,code:99}]", "code-low"}, {"[{cycle:30,rsq:0,code:404,rep:}]", "rep-empty"}, {"[{cycle:30}", "unbalanced"}, {"x", "garbage"},
-		{"[{cycle:30,rsq:0,code:404},{cycle:1,rsq:99999,code:500}]", "two"}, {"[{cycle:9999999999,rsq:0,code:404}]", "cycle-huge"}, {"[{cycle:1,rsq:0,code:404}]", "cycle-one"}},
+		{"[{cycle:30,rsq:0,code:404},{cycle:1,rsq:99999,code:500}]", "two"}, {"[{cycle:9999999999,rsq:0,code:404}]", "cycle-huge"}, {"[{cycle:1,rsq:0,code:404}]", "cycle-one"},
+		// cycle x media timescale wraps around 64 bits (to 0 for 2^60 x 90000; negative / small for the others)
+		{"[{cycle:1152921504606846976,rsq:0,code:404}]", "cycle-2^60"}, {"[{cycle:4611686018427387904,rsq:0,code:404}]", "cycle-2^62"},
+		{"[{cycle:9223372036854775807,rsq:0,code:404}]", "cycle-maxint"}, {"[{cycle:204963823041217,rsq:1,code:404}]", "cycle-wraps-small"}},
 	"traffic": {{"", "empty"}, {",", "empty-element"}, {"u20,", "trailing-comma"}, {"u0", "zero-dur"}, {"u", "no-dur"}, {"x5", "bad-letter"}, {"20", "no-letter"},
-		{"u99999999999999999999", "huge"}, {"u20d10,", "empty-last"}, {",u5", "empty-first"}, {"u1d1s1h1", "all-states-1s"}},
+		{"u99999999999999999999", "huge"}, {"u20d10,", "empty-last"}, {",u5", "empty-first"}, {"u1d1s1h1", "all-states-1s"},
+		// valid durations whose sum wraps around 64 bits (to 0, to a negative and to a small positive cycle)
+		{"u9223372036854775807d9223372036854775807u2", "sum-wraps-to-zero"}, {"u4611686018427387904d4611686018427387904s4611686018427387904h4611686018427387904", "sum-wraps-to-zero-4"},
+		{"u9223372036854775807d5", "sum-wraps-negative"}, {"u9223372036854775807d9223372036854775807u7", "sum-wraps-small"}},
 	"drm":    {{"", "empty"}, {"nosuch", "unknown"}, {"eccp-cenc", "eccp-name"}, {"../x", "path"}},
 	"eccp":   {{"", "empty"}, {"cenc", "cenc"}, {"cbcs", "cbcs"}, {"cbc1", "unknown-scheme"}, {"CENC", "upper"}},
 	"annexI": {{"", "empty"}, {"a", "no-equals"}, {"a=1", "one"}, {"a=1=2", "two-equals"}, {"=", "only-equals"}, {"a=1,,b=2", "empty-pair"}, {",", "comma"}},
@@ -187,6 +193,9 @@ func (C08) Gen(rng *core.Rng, tier string, idx int) *core.Scenario {
 			if rng.Chance(0.5) {
 				rep := core.Pick(rng, reps)
 				tail = ar.Asset + "/" + segName(rep, n)
+				if k.key == "traffic" && rng.Chance(0.7) {
+					tail = ar.Asset + "/bu0/" + segName(rep, n) // below the first BaseURL of the pattern: its state is looked up
+				}
 				if rng.Chance(0.15) && a.Reps[rep].ContentType != "image" {
 					tail = ar.Asset + "/" + a.Reps[rep].InitURI
 				}
